@@ -88,7 +88,11 @@ def main():
             return
         with locks[p]:
             t = time.time()
-            rcc, outc = sh(f"./check {p} --tier quick", cwd=VERIF, env={"VERIF_REPO": wt}, timeout=3000)
+            # private copy of /verif per property (keeps /verif's Generated files and build output untouched)
+            vcopy = f"/tmp/vcopy/rv_{p}"
+            os.makedirs("/tmp/vcopy", exist_ok=True)
+            sh(f"rsync -a --delete --exclude .git --exclude seeded --exclude evidence_scratch {VERIF}/ {vcopy}/")
+            rcc, outc = sh(f"./check {p} --tier quick", cwd=vcopy, env={"VERIF_REPO": wt}, timeout=3000)
             vio = [l for l in outc.split("\n") if l.startswith("VIOLATION")]
             m["res"]["checks"][p] = {"rc": rcc, "violation_lines": vio[:3], "wall_s": round(time.time() - t),
                                      "detail": [l for l in outc.split("\n") if l.startswith("  ")][:4]}
@@ -117,6 +121,7 @@ def main():
         m["meta"]["verification"] = r
         json.dump(m["meta"], open(os.path.join(m["dir"], "meta.json"), "w"), indent=1)
     sh("git -C /repo worktree prune")
+    sh("rm -rf /tmp/vcopy/rv_*")
     bad = [(sid, m["res"].get("confirmed"), m["res"].get("caught")) for sid, m in muts.items()
            if not (m["res"].get("confirmed") and m["res"].get("caught"))]
     print("NOT confirmed-and-caught:", bad)
